@@ -42,8 +42,34 @@ def idWAVE : Bytes := [0x57, 0x41, 0x56, 0x45]
 
 /-- `riffIsStringChunkID` (common.go:99-131) -/
 def riffStringIds : List Bytes :=
-  ["strn", "ISMP", "IDIT", "IARL", "IART", "ICMS", "ICMT", "ICOP", "ICRD", "ICRP", "IDIM", "IDPI", "IENG", "IGNR", "IKEY",
-   "ILGT", "IMED", "INAM", "IPLT", "IPRD", "ISBJ", "ISFT", "ISHP", "ISRC", "ISRF", "ITCH"].map (fun s => s.toUTF8.toList)
+  [
+   [0x73, 0x74, 0x72, 0x6e],  -- strn
+   [0x49, 0x53, 0x4d, 0x50],  -- ISMP
+   [0x49, 0x44, 0x49, 0x54],  -- IDIT
+   [0x49, 0x41, 0x52, 0x4c],  -- IARL
+   [0x49, 0x41, 0x52, 0x54],  -- IART
+   [0x49, 0x43, 0x4d, 0x53],  -- ICMS
+   [0x49, 0x43, 0x4d, 0x54],  -- ICMT
+   [0x49, 0x43, 0x4f, 0x50],  -- ICOP
+   [0x49, 0x43, 0x52, 0x44],  -- ICRD
+   [0x49, 0x43, 0x52, 0x50],  -- ICRP
+   [0x49, 0x44, 0x49, 0x4d],  -- IDIM
+   [0x49, 0x44, 0x50, 0x49],  -- IDPI
+   [0x49, 0x45, 0x4e, 0x47],  -- IENG
+   [0x49, 0x47, 0x4e, 0x52],  -- IGNR
+   [0x49, 0x4b, 0x45, 0x59],  -- IKEY
+   [0x49, 0x4c, 0x47, 0x54],  -- ILGT
+   [0x49, 0x4d, 0x45, 0x44],  -- IMED
+   [0x49, 0x4e, 0x41, 0x4d],  -- INAM
+   [0x49, 0x50, 0x4c, 0x54],  -- IPLT
+   [0x49, 0x50, 0x52, 0x44],  -- IPRD
+   [0x49, 0x53, 0x42, 0x4a],  -- ISBJ
+   [0x49, 0x53, 0x46, 0x54],  -- ISFT
+   [0x49, 0x53, 0x48, 0x50],  -- ISHP
+   [0x49, 0x53, 0x52, 0x43],  -- ISRC
+   [0x49, 0x53, 0x52, 0x46],  -- ISRF
+   [0x49, 0x54, 0x43, 0x48]  -- ITCH
+  ]
 
 /-- the `fmt` chunk (wav.go:86-110) inside its frame -/
 def parseWavFmt (d : Bytes) : Option WavFmt := do
